@@ -411,7 +411,8 @@ def run_property(modname: str, tier: str, seed: int, only: Optional[str] = None)
 
 
 def write_evidence(mod, pid, tier, seed, total: Result, per_sub, wall, known_hit, unreproduced):
-    os.makedirs(os.path.join(VERIF, "evidence"), exist_ok=True)
+    evdir = os.environ.get("VERIF_EVIDENCE_DIR") or os.path.join(VERIF, "evidence")   # mutant runs write their evidence elsewhere
+    os.makedirs(evdir, exist_ok=True)
     exhaustive = not total.capped
     ev = {
         "property_id": pid,
@@ -445,7 +446,7 @@ def write_evidence(mod, pid, tier, seed, total: Result, per_sub, wall, known_hit
         "wall_s": round(wall, 2),
         "violations": int(total.n_violations),
     }
-    path = os.path.join(VERIF, "evidence", f"{pid}.json")
+    path = os.path.join(evdir, f"{pid}.json")
     with open(path, "w") as fh:
         json.dump(ev, fh, indent=1, default=str)
     try:
